@@ -129,6 +129,11 @@ def source_case(case):
         cfg = Config(overrides={"timeouts": {"command": 7}, "runners": {"local": R}})
         Context(cfg).run("x", hide=True, in_stream=False, timeout=3)
         want = 3
+    elif kind == "kwarg0":
+        # a per-call value of 0 is a per-call value: it wins over the configured one (and is not "no timeout")
+        cfg = Config(overrides={"timeouts": {"command": 7}, "runners": {"local": R}})
+        Context(cfg).run("x", hide=True, in_stream=False, timeout=0)
+        want = 0
     elif kind == "config":
         cfg = Config(overrides={"timeouts": {"command": 7}, "runners": {"local": R}})
         Context(cfg).run("x", hide=True, in_stream=False)
@@ -311,7 +316,7 @@ def run(ctx):
     w3 = dict(base, warn=False, sched="x0,main,main,main,main,main,out,main,err,main,main,timer,main,timer,timer".split(","))
     w4 = dict(base, warn=False, sched="x0,timer,timer,timer,main,main,main,out,main,err,main,main,main".split(","))
     runnerio.run_cases(ctx, out, [w1, w2, w3, w4] + gcases, oracle=oracle_gated)
-    extra = [{"src": "kwarg"}, {"src": "config"}, {"src": "none"}, {"src": "cli", "argv": ["-T", "5"]},
+    extra = [{"src": "kwarg"}, {"src": "kwarg0"}, {"src": "config"}, {"src": "none"}, {"src": "cli", "argv": ["-T", "5"]},
              {"src": "cli", "argv": ["--command-timeout=5"]}, {"src": "cli", "argv": ["-T5"]},
              {"src": "file"}, {"src": "envvar"}, {"src": "file", "argv": ["-T", "5"]}, {"src": "envvar", "argv": ["-T5"]},
              {"reuse": True, "rc": 0}, {"reuse": True, "rc": 2}]
